@@ -441,7 +441,7 @@ fn corpus(r: &mut Rng) -> Vec<Vec<u8>> {
         let cfg = crate::c15::Cfg::from_index(r.below(1152) as u32);
         out.push(cfg.printer().duration_to_string(&d));
     }
-    for x in ["Z", "+05:30", "-08", "+00:00:01", "-25:59:59", "2024-07-04T12:00[u-ca=gregory]", "2024-07-04T12:00[!America/New_York][u-ca=iso8601]", "2024-07-04T12:00:00+01[+01:00]", "20240704T120000Z", "2024-W27-4", "2024-186", "T12:30", "12:30:60", "-009999-01-01", "+009999-12-31T23:59:59.999999999", "Thu, 4 Jul 2024 12:00 (comment (nested)) +0000", "4 Jul 24 12:00 EDT", " Thu,\r\n 4 Jul 2024 12:00:00 -0000", "P1W", "PT0.000000001S", "-P1Y1M1W1DT1H1M1.1S", "1 year, 2 months ago", "+ 2h30m", "1:02:03.5", "3 weeks 02:03:04", "1.5 hours", "5 µs", "5 μs"] {
+    for x in ["Z", "+05:30", "-08", "+00:00:01", "-25:59:59", "2024-07-04T12:00[u-ca=gregory]", "2024-07-04T12:00[!America/New_York][u-ca=iso8601]", "2024-07-04T12:00:00+01[+01:00]", "20240704T120000Z", "2024-W27-4", "2024-186", "T12:30", "12:30:60", "-009999-01-01", "+009999-12-31T23:59:59.999999999", "Thu, 4 Jul 2024 12:00 (comment (nested)) +0000", "4 Jul 24 12:00 EDT", " Thu,\r\n 4 Jul 2024 12:00:00 -0000", "10 Jan 2024 05:34 +0000 (w\\(a\\)t \\\\ x)", "Wed, 10 Jan 2024 05:34:45 -0500 (quoted \\) pair) (two)", "P1W", "PT0.000000001S", "-P1Y1M1W1DT1H1M1.1S", "1 year, 2 months ago", "+ 2h30m", "1:02:03.5", "3 weeks 02:03:04", "1.5 hours", "5 µs", "5 μs"] {
         out.push(x.to_string());
     }
     for p in zones::FIXED_POSIX {
@@ -460,7 +460,7 @@ fn corpus(r: &mut Rng) -> Vec<Vec<u8>> {
     v
 }
 
-const INTERESTING: [&[u8]; 40] = [b"", b"-", b"+", b"\xe2\x88\x92", b":", b".", b",", b"T", b"t", b" ", b"Z", b"z", b"[", b"]", b"!", b"=", b"/", b"%", b"<", b">", b"W", b"P", b"\0", b"\xff", b"\xc3", b"\xf0\x9f\x95\x90", b"9", b"0", b"60", b"24", b"61", b"99999999999999999999", b"18446744073709551616", b"9223372036854775808", b"-9223372036854775808", b"2147483648", b"\n", b"\r\n", b"(", b")"];
+const INTERESTING: [&[u8]; 42] = [b"\\", b"(\\", b"", b"-", b"+", b"\xe2\x88\x92", b":", b".", b",", b"T", b"t", b" ", b"Z", b"z", b"[", b"]", b"!", b"=", b"/", b"%", b"<", b">", b"W", b"P", b"\0", b"\xff", b"\xc3", b"\xf0\x9f\x95\x90", b"9", b"0", b"60", b"24", b"61", b"99999999999999999999", b"18446744073709551616", b"9223372036854775808", b"-9223372036854775808", b"2147483648", b"\n", b"\r\n", b"(", b")"];
 
 fn mutate(base: &[u8], other: &[u8], r: &mut Rng) -> Vec<u8> {
     let mut v = base.to_vec();
